@@ -279,6 +279,7 @@ def run_case(case, root):
             V = dict(bytes={}, linked=set(), dirty=set(), created=set(), root=False, since_sp=set())
             sps = []                    # [(savepoint, snapshot)]
             faulted = [False]
+            dupkeys = set()
             oid_hint = {}
             # a second long-lived connection with its own uncommitted working copies
             tm1 = transaction.TransactionManager()
@@ -303,6 +304,7 @@ def run_case(case, root):
                 for sl in sorted(C['bytes']):
                     emit('obj.load %s %s' % (sl[1], hexs(C['bytes'][sl])), 'ok')
                 V['since_sp'] = set()
+                V['base'] = dict(C['bytes'])      # what the base storage shows this connection's snapshot
                 V['bytes'] = dict(C['bytes'])
                 V['linked'] = set(C['linked'])
                 V['dirty'], V['created'], V['root'] = set(), set(), False
@@ -351,10 +353,18 @@ def run_case(case, root):
                 for k, b in list(files.items()):
                     if k not in got:
                         if after == 'pack':
-                            bad('C13:nonundo-pack-removes-kept-blob' if flavor == 'wrap' else
-                                'C13:pack-removes-kept-blob',
-                                'pack removed the blob file of revision %r whose record is kept' % (k,))
-                            if flavor == 'wrap':
+                            dup = flavor == 'fs' and k in dupkeys
+                            if dup:
+                                # superseded duplicate record in a multi-undo transaction, kept through a back pointer
+                                # from after the pack time (corpus/C13/repro_pack_duplicate_undo_record.py)
+                                bad('C13:pack-removes-blob-of-duplicated-record', 'pack removed the blob file of kept '
+                                    'revision %r: its transaction holds a superseded duplicate record' % (k,))
+                                faulted[0] = True          # the model (one record per oid and transaction) does not follow
+                            else:
+                                bad('C13:nonundo-pack-removes-kept-blob' if flavor == 'wrap' else
+                                    'C13:pack-removes-kept-blob',
+                                    'pack removed the blob file of revision %r whose record is kept' % (k,))
+                            if flavor == 'wrap' or dup:
                                 # open finding (keep-only-the-latest pack of the non-undo wrapper): take the
                                 # loss into the ledger so that it is reported once, not at every later check
                                 del files[k]
@@ -709,7 +719,7 @@ def run_case(case, root):
                                     got = hexs(read_blob(objs[sl]))
                                 except Exception as e:
                                     got = errname(e)
-                                emit('sp.load %s %s' % (sl[1], hexs(C['bytes'].get(sl, b''))), got)
+                                emit('sp.load %s %s' % (sl[1], hexs(V['base'].get(sl, b''))), got)
                         guard()
                         check_disk('rollback')
                         check_own_view('rollback')
@@ -1009,6 +1019,11 @@ def run_case(case, root):
                         i = min(op[1], len(tids))
                         tt = TimeStamp(p64(tids[-1 - i] if i < len(tids) else tids[0])).timeTime()
                         tt = tt + 0.5 if i < len(tids) else tt - 0.5
+                        seen_k = set()
+                        for o, t, kd in env.records():
+                            if (o, t) in seen_k:
+                                dupkeys.add((o, t))      # superseded duplicate record (multi-undo)
+                            seen_k.add((o, t))
                         try:
                             db.pack(tt)
                         except Exception as e:
